@@ -324,7 +324,8 @@ type Backend struct {
 	Conns         uint
 	AtomicReplace bool
 	// Alts returns the answers the explorer may give to op (first = default "ok"); nil = {"ok"}.
-	// Built-in answers: "ok", "err" (fails, no effect), "err-after" (takes effect, then reports an error).
+	// Built-in answers: "ok", "err" (fails, no effect), "err-after" (takes effect, then reports an error),
+	// "corrupt" (Save only: acknowledged, but damaged data is stored).
 	Alts func(op *Op) []string
 	// Custom handles scenario-specific answers; it returns handled=false for built-in ones.
 	Custom func(op *Op, answer string) (handled bool, data []byte, err error)
@@ -335,6 +336,8 @@ type Backend struct {
 	// ListDelay models an eventually consistent listing: a file saved through this backend is returned by
 	// List (of any process) only ListDelay after the Save completed; Load/Stat see it immediately.
 	ListDelay time.Duration
+	// ListReverse returns listings in descending name order (backends do not guarantee any order).
+	ListReverse bool
 	// KeyBySem makes the semantic file name part of the event identity (use when the scenario's
 	// operation order is deterministic, e.g. lock protocols).
 	KeyBySem bool
@@ -472,7 +475,7 @@ func (b *Backend) Save(ctx context.Context, h backend.Handle, rd backend.RewindR
 	case "err":
 		return b.done(op, ans, ErrInjected)
 	}
-	if ans != "ok" && ans != "err-after" && b.Custom != nil {
+	if ans != "ok" && ans != "err-after" && ans != "corrupt" && b.Custom != nil {
 		if handled, _, cerr := b.Custom(op, ans); handled {
 			return b.done(op, ans, cerr)
 		}
@@ -486,6 +489,16 @@ func (b *Backend) Save(ctx context.Context, h backend.Handle, rd backend.RewindR
 	if _, exists := b.S.files[k]; exists && !b.AtomicReplace {
 		b.S.mu.Unlock()
 		return b.done(op, ans, errors.New("gatebe: file already exists"))
+	}
+	if ans == "corrupt" {
+		// the backend acknowledges the upload but stores damaged data (second half zeroed, last byte dropped)
+		bad := make([]byte, len(buf))
+		copy(bad, buf[:len(buf)/2])
+		if len(bad) > 0 {
+			bad = bad[:len(bad)-1]
+		}
+		buf = bad
+		mut.Data = bad
 	}
 	b.S.files[k] = buf
 	b.S.Log = append(b.S.Log, mut)
@@ -603,6 +616,11 @@ func (b *Backend) List(ctx context.Context, t backend.FileType, fn func(backend.
 	}
 	// the listing is the state at the moment the operation is released
 	keys := b.S.visibleKeys(t)
+	if b.ListReverse {
+		for i, j := 0, len(keys)-1; i < j; i, j = i+1, j-1 {
+			keys[i], keys[j] = keys[j], keys[i]
+		}
+	}
 	sizes := make([]int64, len(keys))
 	for i, k := range keys {
 		buf, _ := b.S.Get(k)
